@@ -152,6 +152,64 @@ def ctl_case(row, k, prefix="c"):
             "tags": sorted(row.get("feats", [])), "ast": g["body"], "kind": "ctl"}
 
 
+def coll_case(row, k, prefix="o"):
+    """GenColl row -> e2e case (main body = prelude + operations + dump)"""
+    c = prog_case(row, k, prefix=prefix)
+    c["kind"] = "coll"
+    c["tags"] = sorted(set(row.get("feats", [])) | ast_tags(row["body"][3:-4]))
+    return c
+
+
+def _calls_with(node, names):
+    if isinstance(node, list):
+        return any(_calls_with(x, names) for x in node)
+    if isinstance(node, dict):
+        if node.get("k") in ("call", "callv") and any(a.get("k") == "ident" and a.get("name") in names for a in node["args"]):
+            return True
+        return any(_calls_with(v, names) for v in node.values() if isinstance(v, (dict, list)))
+    return False
+
+
+def ast_tags(node, out=None, parent=None):
+    """generic construct tags of a spec AST (known-finding signatures for the GenColl universe)"""
+    out = set() if out is None else out
+    if isinstance(node, list):
+        for x in node:
+            ast_tags(x, out, parent)
+    elif isinstance(node, dict):
+        k = node.get("k")
+        if k:
+            out.add("n:" + k)
+            if k == "mcall":
+                out.add("m:" + node["name"])
+                out.add("m-recv:" + node["name"] + ":" + node["recv"].get("k", "?"))
+            if k == "call":
+                out.add("f:" + node["f"])
+            if k == "bin":
+                out.add("op:" + node["op"])
+                for side in ("l", "r"):
+                    out.add("op-operand:" + node["op"] + ":" + node[side].get("k", "?"))
+            if k in ("listcomp", "dictcomp"):
+                out.add(k + "-iter:" + node["iter"].get("k", "?"))
+                out.add(k + ("-filter:" + node["cond"][0].get("k", "?") if node["cond"] else "-nofilter"))
+                out.add(k + "-elem:" + (node.get("elem") or node.get("val")).get("k", "?"))
+            if k == "closure":
+                out.add("closure-body:" + node["body"].get("k", "?"))
+                if _calls_with(node["body"], set(node["params"])):
+                    out.add("closure-calls-with-param")
+            if k == "for":
+                out.add("for-iter:" + node["iter"].get("k", "?"))
+            if k == "tuple":
+                for it in node["items"]:
+                    out.add("tuple-item:" + it.get("k", "?"))
+            if k == "setidx":
+                out.add("setidx:" + node["name"])
+        for key, v in node.items():
+            if isinstance(v, (dict, list)):
+                ast_tags(v, out, node)
+    return out
+
+
 def self_check_ctl(ctx, cases):
     """the rendered function g must parse back to the AST the specification evaluated"""
     reqs = [{"op": "parse", "src": c["decls"].replace("{N}", "")} for c in cases]
